@@ -5,5 +5,7 @@ import Refine.Gen.CellTables
 import Refine.Gen.PartMacros
 import Refine.Model.CellTopo
 import Refine.Model.Geom
+import Refine.Model.NodeIds
+import Refine.Model.CellStore
 import Refine.Lemmas.ScalarReal
 import Refine.Props.C15
